@@ -190,6 +190,27 @@ def gen_attrs(ctx, cases):
 
 
 
+
+def gen_rename_attached(ctx, cases):
+    """renameNode of an attribute that is ON an element which holds other attributes (Level-1 and namespace-aware ones), onto
+    names the element already uses / does not use, every namespace: the put-back through setAttributeNode / setAttributeNodeNS.
+    The class 'another attribute has the new nodeName under a different (namespaceURI, localName) key, or the same key under a
+    different nodeName' is NOT modelled (setAttributeNodeNS semantics): harness and model skip exactly those calls (`skip`)."""
+    pre = ["cr 0 e %s -" % hx("el"), "sa 1 %s %s" % (hx("a"), hx("v")), "sa 1 %s %s" % (hx("b"), hx("v")),
+           "sa 1 %s %s" % (hx("x-1"), hx("v")), "sa 1 %s %s" % (hx("p:c"), hx("v")),
+           "rn 0 8 %s %s" % (hx("u"), hx("p:c"))]                       # attributes 2 a, 4 b, 6 x-1, 10 p:c in namespace u
+    head = "1 1 ; " + " ; ".join(pre)
+    names = ["a", "b", "c", "p:b", "q:c", "p:c", "xml:a", "xmlns", "xmlns:p", "1a", "p:"]
+    for t in (2, 6, 10):
+        for ns in ["", "u", "w", XML_URI, XMLNS_URI]:
+            for q in names:
+                first = "rn 0 %d %s %s" % (t, hx(ns), hx(q))
+                cases.append(("rename-attached", head + " ; " + first + " ; fp 1 %s ; gn 1 %s" % (hx(q), hx(q))))
+                if ctx.tier == "thorough" or ctx.rng.random() < 0.3:
+                    ns2, q2 = ctx.rng.choice(["", "u", "w"]), ctx.rng.choice(names)
+                    cases.append(("rename-attached", head + " ; " + first + " ; rn 0 %%7 %s %s ; rn 0 4 %s %s ; gn 1 %s" % (
+                        hx(ns2), hx(q2), hx(ns), hx(q), hx(q2))))
+
 AM_NAMES = ["a", "aa", "ab", "b", "b-", "ba", "c", "c.d", "d", "e", "x:y", "z"]
 AM_PROBES = AM_NAMES + ["A", "a0", "az", "b.", "bz", "aaa", "zz", "_", "d-"]
 
@@ -562,6 +583,7 @@ def run(ctx):
         gen_rename(ctx, cases)
         gen_attrs(ctx, cases)
         gen_attrmap(ctx, cases)
+        gen_rename_attached(ctx, cases)
         gen_userdata(ctx, cases)
         gen_ids(ctx, cases, not f35_present)
         gen_random(ctx, cases)
